@@ -177,6 +177,7 @@ func (dsm *DsManager) UpdateDataset(name string, config *UpdateDatasetConfig) (*
 	}
 
 	ds := dsm.GetDataset(name)
+	verifhook.Point("update.before-lock")
 	ds.WriteLock.Lock()
 	defer ds.WriteLock.Unlock()
 
